@@ -7,12 +7,15 @@ set -u
 src=$1; name=$2; prop=$3; pkg=$4
 export GOFLAGS=-mod=mod GOPROXY=off GOSUMDB=off GOTOOLCHAIN=local
 wt=/tmp/confirm_$name
+# only the demo's own tests are run in its package (cmd/helpers has a test that fails in this sandbox)
+tests=$(grep -o "^func Test[A-Za-z0-9_]*" $src/demo_test.go | sed 's/func //' | paste -sd'|')
+race=""; grep -q "needs -race" $src/demo_test.go && race="-race"
 git -C /repo worktree remove --force $wt 2>/dev/null
 git -C /repo worktree add -q --detach $wt HEAD || exit 2
 cd $wt
 res="ok"
 cp $src/demo_test.go $pkg/zz_demo_test.go
-go test -vet=off -count=1 ./$pkg >/tmp/confirm_$name.clean.log 2>&1 || res="demo-fails-on-clean-tree"
+go test -vet=off -count=1 -timeout 300s $race -run "^($tests)\$" ./$pkg >/tmp/confirm_$name.clean.log 2>&1 || res="demo-fails-on-clean-tree"
 rm -f $pkg/zz_demo_test.go
 if ! git apply $src/patch.diff; then res="patch-does-not-apply"; fi
 if [ "$res" = ok ]; then
@@ -25,7 +28,7 @@ if [ "$res" = ok ]; then
 fi
 if [ "$res" = ok ]; then
   cp $src/demo_test.go $pkg/zz_demo_test.go
-  if go test -vet=off -count=1 ./$pkg >/tmp/confirm_$name.demo.log 2>&1; then res="demo-passes-with-patch"; fi
+  if go test -vet=off -count=1 -timeout 300s $race -run "^($tests)\$" ./$pkg >/tmp/confirm_$name.demo.log 2>&1; then res="demo-passes-with-patch"; fi
 fi
 cd /; git -C /repo worktree remove --force $wt
 if [ "$res" = ok ]; then
